@@ -41,6 +41,7 @@ CFG = {
         "C17_plutus_detailed_roundtrip", "C17_plutus_detailed_roundtrip_refuted", "C17_plutus_out_of_schema_is_error",
         "C17_plutus_in_schema_converts", "C17_chunks", "C17_chunks_valid_metadata", "C17_unchunk_rejects",
         "C17_serde_forms_roundtrip", "C17_serde_forms_canonical", "C17_serde_forms_total", "C17_old_behaviour_refuted",
+        "C17_serde_read_write", "C17_serde_typed_roundtrip", "C17_serde_table_roundtrip", "C17_serde_annotations_wf",
     ],
     "allowed_axioms": [],
     "level_text": "Coq proofs (closed under the global context) about an executable model of metadata.rs / plutus_data.rs JSON conversions: "
